@@ -56,7 +56,7 @@ IDLE = 10000.0
 def _api_scenario(draw, gen: int):
     inst = draw(con.installation(gen, max_acs=2))
     state = draw(con.full_state(inst))
-    script = draw(st.lists(st.tuples(st.sampled_from(["refuse", "refuse", "timeout"]), st.sampled_from([0.0, 0.125, 1.0])).map(list), max_size=3))
+    script = draw(st.lists(st.tuples(st.sampled_from(["refuse", "refuse", "timeout", "unreachable"]), st.sampled_from([0.0, 0.125, 1.0])).map(list), max_size=3))
     script.append(["accept", draw(st.sampled_from([0.0, 0.0, 0.125, 1.0, 3.0]))])
     beh = {k: [{"delay": draw(st.sampled_from([0.0, 0.0, 0.125, 1.0]))}] for k in con.STEPS}
     silent = draw(st.one_of(st.none(), st.none(), st.integers(0, 5)))
@@ -324,7 +324,7 @@ def _reinit(bad, rig, case):
 
 @st.composite
 def _sock_scenario(draw, gen: int):
-    script = draw(st.lists(st.tuples(st.sampled_from(["refuse", "refuse", "timeout"]), st.sampled_from([0.0, 0.125, 1.0])).map(list), max_size=4))
+    script = draw(st.lists(st.tuples(st.sampled_from(["refuse", "refuse", "timeout", "unreachable"]), st.sampled_from([0.0, 0.125, 1.0])).map(list), max_size=4))
     script.append(["accept", draw(st.sampled_from([0.0, 0.125, 1.0, 3.0]))])
     sends = draw(st.lists(st.tuples(st.integers(0, 12 * 16).map(lambda x: x / 16.0), sockops.kind_and_params(gen),
                                     st.sampled_from(["idem", "nonidem", "conn", [1, 60.0]])).map(list), max_size=10))
